@@ -2271,6 +2271,22 @@ evhttp_append_to_last_header(struct evkeyvalq *headers, char *line)
 	return (0);
 }
 
+/* RFC 9110 5.1: field-name = token = 1*tchar */
+static int
+evhttp_field_name_is_token(const char *name)
+{
+	const char *p;
+
+	if (*name == '\0')
+		return (0);
+	for (p = name; *p != '\0'; ++p) {
+		if (!EVUTIL_ISALNUM_(*p) &&
+		    strchr("!#$%&'*+-.^_`|~", *p) == NULL)
+			return (0);
+	}
+	return (1);
+}
+
 enum message_read_status
 evhttp_parse_headers_(struct evhttp_request *req, struct evbuffer* buffer)
 {
@@ -2310,6 +2326,12 @@ evhttp_parse_headers_(struct evhttp_request *req, struct evbuffer* buffer)
 		svalue = line;
 		skey = strsep(&svalue, ":");
 		if (svalue == NULL)
+			goto error;
+
+		/* The name of a received field is a token directly followed
+		 * by the colon (RFC 9112 5.1): "Content-Length : 5" must not
+		 * turn into a field that the framing code does not know. */
+		if (!evhttp_field_name_is_token(skey))
 			goto error;
 
 		svalue += strspn(svalue, " ");
